@@ -210,11 +210,12 @@ theorem merge_order (K : Classes) (fs : FS) (dir : List Char) (n : Nat) (st st' 
 
 /-- **Relative includes resolve against the entry file's directory** — at every nesting level
 (`merge_order` passes the same `dir` down): each include value yields one glob pattern, in order,
-itself when absolute, otherwise `Join(entryDir, value)`; never the including file's directory. -/
+itself when absolute, otherwise `Join(quoted entryDir, value)` — the entry directory's own glob
+metacharacters are quoted, only the value is a pattern; never the including file's directory. -/
 theorem relative_includes_resolve_against_entry_dir (dir : List Char) (items : List AItem) (pats : List (List Char))
     (h : includePatterns dir items = .ok pats) :
     ∃ vs : List (List Char), items.map AItem.paramStr = vs.map some ∧
-      pats = vs.map (fun v => if isAbsPath v then v else joinPath dir v) :=
+      pats = vs.map (fun v => if isAbsPath v then v else joinPath (quoteGlobMeta dir) v) :=
   includePatterns_spec dir items pats h
 
 /-- merging a child appends its items after the father's, section by section -/
